@@ -88,7 +88,8 @@ BASE_MTIME = 1_600_000_000
 TOP_DIRS = ('pub', 'priv', 'grp', 'pub2')          # 'pub2': a sibling whose name has another directory's name as prefix
 NESTED = {'pub': 'inner', 'priv': 'rare', 'grp': 'club', 'pub2': 'more'}
 FILES = {
-    'pub': ('song one.mp3', 'mix tape.ogg', 'live/concert song.flac', 'inner/deep song.mp3', 'inner/secret demo.mp3'),
+    'pub': ('song one.mp3', 'mix tape.ogg', 'live/concert song.flac', 'inner/deep song.mp3', 'inner/secret demo.mp3',
+            'inner/core/hidden song.mp3'),
     'priv': ('secret song.mp3', 'demo tape.mp3', 'rare/live bootleg.flac', 'rare/rare mix.ogg'),
     'grp': ('group song.mp3', 'club/secret mix.ogg', 'club/club tape.mp3'),
     'pub2': ('second song.mp3', 'more/other mix.ogg'),
@@ -113,7 +114,8 @@ def _all_files(tops):
 
 
 def _dir_candidates():
-    return [[t] for t in TOP_DIRS] + [[t, NESTED[t]] for t in TOP_DIRS]
+    # (three levels under 'pub': a directory inside a nested shared directory)
+    return [[t] for t in TOP_DIRS] + [[t, NESTED[t]] for t in TOP_DIRS] + [['pub', 'inner', 'core']]
 
 
 def _draw_users(rng, named):
@@ -429,6 +431,17 @@ def corpus(tier):
         for form in ('exact', 'case', 'sep_trail', 'sep_double', 'sep_mixed', 'parent_alias'):
             steps.append({'op': 'dir', 'user': 'u1', 'dir': d, 'form': form, 'gap': 0.05})
     out.append(_plan(three, steps))
+    # 13. three nesting levels: the innermost directory (stricter mode) is added after the middle one took over its files
+    for m_mid, m_in in (('everyone', 'friends'), ('everyone', 'users'), ('friends', 'everyone')):
+        for scan in (False, True):
+            steps = [{'op': 'add', 'dir': ['pub', 'inner'], 'mode': m_mid, 'users': ['u2'], 'scan': scan, 'gap': 1.2},
+                     {'op': 'add', 'dir': ['pub', 'inner', 'core'], 'mode': m_in, 'users': ['u2'], 'scan': False, 'gap': 1.2},
+                     search('u1', 'server', 'hidden', gap=1.2), search('u1', 'file', 'song'), {'op': 'shares', 'user': 'u1'},
+                     {'op': 'dir', 'user': 'u1', 'dir': ['pub', 'inner', 'core'], 'form': 'exact'},
+                     {'op': 'dir', 'user': 'u1', 'dir': ['pub', 'inner', 'core'], 'form': 'parent_alias'},
+                     q('u1', 'pub/inner/core/hidden song.mp3'), q('u1', 'pub/inner/core/hidden song.mp3', 'parent_alias'),
+                     {'op': 'rescan', 'gap': 3.0}, search('u1', 'server', 'hidden', gap=1.2)]
+            out.append(_plan([{'dir': ['pub'], 'mode': 'everyone', 'users': []}], steps, slots=1))
     # 8. requests racing a change (same instant, 50 ms)
     for gap in (0.0, 0.05):
         out.append(_plan(three, [search('u1', 'server', 'secret'), {'op': 'friend', 'user': 'u1', 'value': True, 'gap': gap},
